@@ -183,6 +183,12 @@ pub fn build(
         }
     }
 
+    if let Some(singleton) = singleton {
+        semantic
+            .type_registry
+            .ensure_address_fits(singleton, &format!("the singleton of enum `{resolvee_path}`"))?;
+    }
+
     if defaultable && default_index.is_none() {
         anyhow::bail!(
             "enum `{resolvee_path}` is marked as defaultable but has no default variant set"
